@@ -131,7 +131,7 @@ def check_program(L: harness.Loaded, prog: Dict[str, Any], part: Part) -> None:
                 part.count("subset_encodings")
                 pdu, exc, _ = harness.odx_encode(msg, sub, request)
                 must_fail = bool(set(omit) & required)
-                case = {"program": prog_case(prog), "values": jval(sub)}
+                case = {"program": prog_case(prog), "values": jval(values)}  # (the full assignment: the replay enumerates its subsets again)
                 if exc is None and must_fail:
                     part.violation(f"C08/{tag}/required-but-omittable", case, f"omitting {sorted(set(omit) & required)} (reported required) still encodes to {pdu.hex()}")
                 elif exc is not None and not must_fail:
